@@ -48,6 +48,12 @@ func source(name string, bits int) string {
 	b.WriteString("type T struct{ A int }\n\nfunc (T) Val() {}\nfunc (*T) Ptr() {}\nfunc (T) Val2() {}\nfunc (*T) Ptr2() {}\nfunc (*T) Ptr3() {}\nfunc (T) Val3() {}\n\nconst C = 1\n\nfunc F() int { return C }\n\nvar V = 2\n\n")
 	if has(0) {
 		b.WriteString("func local() int {\n\ttype T struct{ L string }\n\ttype OnlyLocal int\n\tvar x OnlyLocal\n\treturn len(T{}.L) + int(x)\n}\n\n")
+		// a function-local INTERFACE named like a package-level type that has methods (interface methods are the
+		// only function-local methods there are)
+		b.WriteString("func localIface() {\n\ttype T interface {\n\t\tFlush() error\n\t\tClose() error\n\t\tVal()\n\t}\n\tvar _ T\n}\n\n")
+		if has(3) {
+			b.WriteString("func localIfaceG() {\n\ttype G interface {\n\t\tZap()\n\t\tGet() int\n\t}\n\tvar _ G\n}\n\n")
+		}
 	}
 	if has(1) {
 		b.WriteString("func generic[T any, U comparable](t T, u U) T { return t }\n\n")
